@@ -178,6 +178,22 @@ func (r *verifReport) finish() int {
 				return 2
 			}
 		}
+		if v.Case != "" {
+			if c := verifChecks[v.Prop]; c != nil && c.ReplayCase != nil {
+				for i := 0; i < 2; i++ {
+					found := false
+					for _, f := range c.ReplayCase(v.Case, v.Seed) {
+						if f.Sig == v.Sig {
+							found = true
+						}
+					}
+					if !found {
+						fmt.Fprintf(os.Stderr, "ENGINE-ERROR: case finding %s did not reproduce on replay: %s\n", v.Sig, v.Detail)
+						return 2
+					}
+				}
+			}
+		}
 		nviol++
 		exit = 1
 		file := filepath.Join(verifRoot(), "replays", fmt.Sprintf("%s-%s.json", r.Prop, verifShort(v.Sig)))
@@ -489,3 +505,5 @@ func verifMsgKind(m []byte) string {
 	}
 	return "?"
 }
+
+func jsonUnmarshal(s string, v interface{}) error { return json.Unmarshal([]byte(s), v) }
